@@ -12,3 +12,45 @@ package payload
 //@ requires m != nil && io.validR(br)
 //@ opt frame off
 //@ ensures[reader] io.validR(br)
+
+// Safety sweep over the other wire payloads (C17): decoding bytes from a peer never panics and never
+// asks for an allocation whose size comes unchecked from the wire. No functional claim.
+//@ func (*Inventory).DecodeBinary
+//@ requires p != nil && io.validR(br)
+//@ opt frame off
+//@ func (*Headers).DecodeBinary
+//@ requires p != nil && io.validR(br)
+//@ opt frame off
+//@ loop 0 invariant io.validR(br)
+//@ func (*GetBlocks).DecodeBinary
+//@ requires p != nil && io.validR(br)
+//@ opt frame off
+//@ func (*Extensible).DecodeBinary
+//@ requires e != nil && io.validR(r)
+//@ opt frame off
+//@ func (*AddressAndTime).DecodeBinary
+//@ requires p != nil && io.validR(br)
+//@ opt frame off
+//@ func (*AddressList).DecodeBinary
+//@ requires p != nil && io.validR(br)
+//@ opt frame off
+//@ func (*MPTData).DecodeBinary
+//@ requires d != nil && io.validR(r)
+//@ opt frame off
+//@ loop 0 invariant io.validR(r)
+//@ func (*Version).DecodeBinary
+//@ requires p != nil && io.validR(br)
+//@ opt frame off
+//@ func (*GetBlockByIndex).DecodeBinary
+//@ requires d != nil && io.validR(br)
+//@ opt frame off
+//@ func (*MPTInventory).DecodeBinary
+//@ requires p != nil && io.validR(br)
+//@ opt frame off
+//@ func (*Ping).DecodeBinary
+//@ requires p != nil && io.validR(br)
+//@ opt frame off
+//@ func (*Extensible).decodeBinaryUnsigned
+//@ requires e != nil && io.validR(r)
+//@ modifies *e, r.Err, r.uv, r.r.pos
+//@ ensures[reader] io.validR(r)
